@@ -1507,15 +1507,36 @@ def interposer_seq(rec):
     return seq
 
 
+def without_injected_faults(scn):
+    """The scenario as an un-instrumented process can run it: the faults that only the interposer can inject - a rename
+    failing with EXDEV ('exdev' ops), a signal at a primitive boundary ('raise_at') - are raised BEFORE the system call
+    is made, so the kernel (and strace) never sees what the recorded trace shows there; they are taken out on both sides.
+    Values whose pickling raises stay: that exception is real in both processes."""
+    ops = []
+    for op in scn['ops']:
+        if op['op'] == 'exdev':
+            continue
+        if 'raise_at' in op:
+            op = dict((k, v) for k, v in op.items() if k != 'raise_at')
+        ops.append(op)
+    return dict(scn, ops=ops)
+
+
+# size changes of an open file (file object .truncate() -> ftruncate(2), which no Python-level primitive announces; the
+# interposer records them, like every data write, as a content change) are not part of the compared alphabet
+NOT_COMPARED = ('other:ftruncate', 'other:truncate')
+
+
 def strace_crosscheck(ck, scn, top, tag):
     """the primitives strace sees a separate, un-instrumented process issue on the jugdir = the interposer's trace"""
     import json
     import subprocess
+    scn = without_injected_faults(scn)
     root = os.path.join(top, 'st_' + tag)
     os.makedirs(os.path.join(root, 'a'))
     os.makedirs(os.path.join(root, 'b'))
     rec = record(scn, os.path.join(root, 'a'), reader_stride=0)
-    mine = canon_temps(interposer_seq(rec))
+    mine = canon_temps([e for e in interposer_seq(rec) if e[0] not in NOT_COMPARED])
     jd = os.path.join(root, 'b', 'jd')
     job = os.path.join(root, 'job.json')
     with open(job, 'w') as f:
@@ -1529,7 +1550,7 @@ def strace_crosscheck(ck, scn, top, tag):
         ck.notes.append('strace cross-check did not run: %s' % p.stdout[-300:])
         shutil.rmtree(root, ignore_errors=True)
         return
-    theirs = canon_temps(parse_strace(open(out).read(), jd))
+    theirs = canon_temps([e for e in parse_strace(open(out).read(), jd) if e[0] not in NOT_COMPARED])
     shutil.rmtree(root, ignore_errors=True)
     ck.count('strace cross-check: scenarios')
     ck.count('strace cross-check: primitives compared', len(theirs))
